@@ -107,7 +107,8 @@ def type_str(t, in_field=False, nested=False):
     if k == 'iface':
         return 'iface(T.%s,ptr=%d)' % (t[1], 1 if (t[2] and not nested) else 0)
     if k == 'xiface':
-        return 'iface(%s.%s,ptr=%d)' % (t[1], t[2], 0 if nested else 1)
+        # an element type carries no c:type, so only a pointer="1" record of the included namespace is known to be a pointer
+        return 'iface(%s.%s,ptr=%d)' % (t[1], t[2], (1 if (t[1], t[2]) == ('X', 'Handle') else 0) if nested else 1)
     if k == 'glist':
         return 'glist(%s)' % type_str(t[1], nested=True)
     if k == 'gslist':
